@@ -16,14 +16,18 @@ package main
 // Nothing here computes an expected value: inputs/outputs are only encoded/decoded.
 
 import (
+	"bufio"
+	"encoding/binary"
 	"encoding/json"
 	"fmt"
+	"os"
 	"regexp"
 	"runtime"
 	"runtime/debug"
 	"sort"
 	"strconv"
 	"strings"
+	"syscall"
 	"unsafe"
 
 	"git.metabarcoding.org/obitools/obitools4/obitools4/pkg/obiapat"
@@ -76,20 +80,25 @@ type c07Slot struct {
 
 // one line of the cases file: a history (H, X) or a law case (K ...)
 type c07Case struct {
-	H    []c07Op         `json:"h,omitempty"`
-	X    json.RawMessage `json:"x,omitempty"` // history: []c07Slot; comp case: the symbol
-	K    string          `json:"k,omitempty"`
-	V    *c07Val         `json:"v,omitempty"`
-	E    json.RawMessage `json:"e,omitempty"`
-	Erc  *c07Val         `json:"erc,omitempty"`
-	From int             `json:"from"`
-	To   int             `json:"to"`
-	Circ int             `json:"circ"`
-	Mf   int             `json:"mf"`
-	Mt   int             `json:"mt"`
-	S    json.RawMessage `json:"s,omitempty"`
+	H  []c07Op         `json:"h,omitempty"`
+	X  json.RawMessage `json:"x,omitempty"` // history: []c07Slot; comp case: the symbol
+	K  string          `json:"k,omitempty"`
+	V  *c07Val         `json:"v,omitempty"`
+	E  json.RawMessage `json:"e,omitempty"`
+	S  json.RawMessage `json:"s,omitempty"`
+	Ws []c07Win        `json:"ws,omitempty"` // "subs" case: all windows starting at the same position
 
 	slots []c07Slot
+}
+
+type c07Win struct {
+	From int    `json:"from"`
+	To   int    `json:"to"`
+	Circ int    `json:"circ"`
+	E    c07Val `json:"e"`
+	Mf   int    `json:"mf"`
+	Mt   int    `json:"mt"`
+	Erc  c07Val `json:"erc"`
 }
 
 func (v *c07Val) norm() {
@@ -482,6 +491,48 @@ func expectVal(env *Env, id, cl, what string, got *obiseq.BioSequence, want c07V
 	return true
 }
 
+func replaySubLaw(env *Env, c c07Case, w c07Win) {
+	e := w.E
+	cl := "law/sub/linear"
+	if w.Circ == 1 {
+		cl = "law/sub/circular"
+		if w.To <= w.From {
+			cl = "law/sub/circular-wrap"
+		} else if w.To > len(c.V.Seq) {
+			cl = "law/sub/circular-over"
+		}
+	}
+	defer func() {
+		if r := recover(); r != nil {
+			env.fail("C07.law.panic", cl, fmt.Sprintf("%s.Subsequence(%d,%d,%v): panic: %v", strings.Join(c.V.Seq, ""), w.From, w.To, w.Circ == 1, r), c)
+			env.ok(cl)
+		}
+	}()
+	kind := strings.TrimPrefix(cl, "law/sub/")
+	src := buildSeq("s", *c.V)
+	in := fmt.Sprintf("%s.Subsequence(%d,%d,%v)", strings.Join(c.V.Seq, ""), w.From, w.To, w.Circ == 1)
+	u, err := src.Subsequence(w.From, w.To, w.Circ == 1)
+	if err != nil {
+		env.fail("C07.law.sub."+kind+".error", cl, in+" returned error "+err.Error(), c)
+		env.ok(cl)
+		return
+	}
+	ok := expectVal(env, "C07.law.sub."+kind, cl, in, u, e, c)
+	ok = expectVal(env, "C07.alias.sub", cl, "source after "+in, src, *c.V, c) && ok
+	if ok {
+		// RC(Sub(v,i,j)) = Sub(RC(v), mirror(i,j))
+		urc := u.ReverseComplement(false)
+		expectVal(env, "C07.law.mirror.rc_of_sub", cl, "reverse complement of "+in, urc, w.Erc, c)
+		m, err := buildSeq("s", *c.V).ReverseComplement(true).Subsequence(w.Mf, w.Mt, w.Circ == 1)
+		if err != nil {
+			env.fail("C07.law.mirror.error", cl, fmt.Sprintf("Subsequence(%d,%d) of the reverse complement: %v", w.Mf, w.Mt, err), c)
+		} else {
+			expectVal(env, "C07.law.mirror.sub_of_rc", cl, fmt.Sprintf("Subsequence(%d,%d,%v) of the reverse complement of %s", w.Mf, w.Mt, w.Circ == 1, strings.Join(c.V.Seq, "")), m, w.Erc, c)
+		}
+	}
+	env.ok(cl)
+}
+
 var kmerMap4 *obikmer.KmerMap[obifp.Uint64]
 
 func replayLaw(env *Env, c c07Case) {
@@ -518,44 +569,12 @@ func replayLaw(env *Env, c c07Case) {
 		s2.ReverseComplement(true)
 		expectVal(env, "C07.law.rcrc_inplace", cl, "ReverseComplement(true) twice of "+in, s2, *c.V, c)
 		env.ok(cl)
-	case "sub":
-		var e c07Val
-		if json.Unmarshal(c.E, &e) != nil {
-			fmt.Println("bad sub case")
-			return
+	case "subs":
+		for _, w := range c.Ws {
+			cw := c // the reported / replayed case is narrowed to the failing window
+			cw.Ws = []c07Win{w}
+			replaySubLaw(env, cw, w)
 		}
-		cl := "law/sub/linear"
-		if c.Circ == 1 {
-			cl = "law/sub/circular"
-			if c.To <= c.From {
-				cl = "law/sub/circular-wrap"
-			} else if c.To > len(c.V.Seq) {
-				cl = "law/sub/circular-over"
-			}
-		}
-		kind := strings.TrimPrefix(cl, "law/sub/")
-		src := buildSeq("s", *c.V)
-		in := fmt.Sprintf("%s.Subsequence(%d,%d,%v)", strings.Join(c.V.Seq, ""), c.From, c.To, c.Circ == 1)
-		u, err := src.Subsequence(c.From, c.To, c.Circ == 1)
-		if err != nil {
-			env.fail("C07.law.sub."+kind+".error", cl, in+" returned error "+err.Error(), c)
-			env.ok(cl)
-			return
-		}
-		ok := expectVal(env, "C07.law.sub."+kind, cl, in, u, e, c)
-		ok = expectVal(env, "C07.alias.sub", cl, "source after "+in, src, *c.V, c) && ok
-		if ok {
-			// RC(Sub(v,i,j)) = Sub(RC(v), mirror(i,j))
-			urc := u.ReverseComplement(false)
-			expectVal(env, "C07.law.mirror.rc_of_sub", cl, "reverse complement of "+in, urc, *c.Erc, c)
-			w, err := buildSeq("s", *c.V).ReverseComplement(true).Subsequence(c.Mf, c.Mt, c.Circ == 1)
-			if err != nil {
-				env.fail("C07.law.mirror.error", cl, fmt.Sprintf("Subsequence(%d,%d) of the reverse complement: %v", c.Mf, c.Mt, err), c)
-			} else {
-				expectVal(env, "C07.law.mirror.sub_of_rc", cl, fmt.Sprintf("Subsequence(%d,%d,%v) of the reverse complement of %s", c.Mf, c.Mt, c.Circ == 1, strings.Join(c.V.Seq, "")), w, *c.Erc, c)
-			}
-		}
-		env.ok(cl)
 	case "comp":
 		var x, e string
 		json.Unmarshal(c.X, &x)
@@ -629,24 +648,91 @@ func replayLaw(env *Env, c c07Case) {
 	}
 }
 
+func lawText(c c07Case) string {
+	switch c.K {
+	case "rc":
+		var e c07Val
+		json.Unmarshal(c.E, &e)
+		return fmt.Sprintf("rc {%s} -> {%s}", valText(*c.V), valText(e))
+	case "subs":
+		w := c.Ws[0]
+		return fmt.Sprintf("sub(%d,%d,circular=%d) {%s} -> {%s}; its reverse complement = sub(%d,%d) of the reverse complement = {%s}", w.From, w.To, w.Circ, valText(*c.V), valText(w.E), w.Mf, w.Mt, valText(w.Erc))
+	}
+	return fmt.Sprintf("%s %s%s -> %s", c.K, string(c.S), string(c.X), string(c.E))
+}
+
+// streamCases calls f for every case of a TLC export (one JSON string holding a JSON object per line).
+// TLC writes the line of a state when the state is generated, hence after the line of its predecessor:
+// a history always comes after its prefixes.
+func streamCases(path string, f func(i int, c c07Case)) {
+	fh, err := os.Open(path)
+	if err != nil {
+		fmt.Fprintln(os.Stderr, err)
+		os.Exit(2)
+	}
+	defer fh.Close()
+	r := bufio.NewReaderSize(fh, 4<<20)
+	i := 0
+	for {
+		line, err := r.ReadBytes('\n')
+		if len(strings.TrimSpace(string(line))) > 0 {
+			var raw json.RawMessage = line
+			var s string
+			if json.Unmarshal(line, &s) == nil {
+				raw = json.RawMessage(s)
+			}
+			var c c07Case
+			if e := json.Unmarshal(raw, &c); e != nil {
+				fmt.Fprintln(os.Stderr, "bad case line:", e, string(line[:min(len(line), 200)]))
+				os.Exit(2)
+			}
+			f(i, c)
+			i++
+		}
+		if err != nil {
+			break
+		}
+	}
+}
+
 func replayC07(env *Env) {
 	// one P, no GC inside a history: the behaviour of sync.Pool is then a function of the history alone
 	runtime.GOMAXPROCS(1)
 	old := debug.SetGCPercent(-1)
 	defer debug.SetGCPercent(old)
 	obiseq.VerifSetPoison(true)
-	cases := loadCases[c07Case](env.cases)
-	// shorter histories first: a history whose proper prefix already diverged is not examined again
-	// (the heap is already wrong; the prefix case carries the report)
-	sort.SliceStable(cases, func(i, j int) bool { return len(cases[i].H) < len(cases[j].H) })
 	histKey := func(ops []c07Op) string {
 		b, _ := json.Marshal(ops)
 		return string(b)
 	}
+	// a history whose proper prefix already diverged is not examined again (the heap is already wrong;
+	// the prefix case carries the report)
 	diverged := map[string]bool{}
+	// A fatal error of the code under test (stack overflow, ...) kills this process: the case being
+	// run is kept in a side file so that the orchestrator can attribute the crash and resume after it.
+	first, last := env.optInt("from", 0), env.optInt("to", 1<<62)
+	var progress []byte // 8 bytes shared with the file: survives the death of the process, costs no system call
+	if pth := env.opt("progress", ""); pth != "" {
+		if fh, err := os.Create(pth); err == nil && fh.Truncate(8) == nil {
+			progress, _ = syscall.Mmap(int(fh.Fd()), 0, 8, syscall.PROT_READ|syscall.PROT_WRITE, syscall.MAP_SHARED)
+		}
+	}
+	debug.SetMaxStack(256 << 20)
 	nh, nl := 0, 0
-	for i := range cases {
-		c := cases[i]
+	streamCases(env.cases, func(i int, c c07Case) {
+		if i >= last {
+			return
+		}
+		if i < first {
+			// the history that crashed the previous run: its extensions are not examined
+			if len(c.H) > 0 && env.opt("skipdiverged", "") != "" && i == first-1 {
+				diverged[histKey(c.H)] = true
+			}
+			return
+		}
+		if progress != nil {
+			binary.LittleEndian.PutUint64(progress, uint64(i))
+		}
 		if c.V != nil {
 			c.V.norm()
 		}
@@ -654,7 +740,7 @@ func replayC07(env *Env) {
 			if len(diverged) > 0 && diverged[histKey(c.H[:len(c.H)-1])] {
 				diverged[histKey(c.H)] = true
 				env.ok("hist/extends-a-diverged-history")
-				continue
+				return
 			}
 			if replayHistory(env, c) {
 				diverged[histKey(c.H)] = true
@@ -666,13 +752,13 @@ func replayC07(env *Env) {
 		} else {
 			replayLaw(env, c)
 			nl++
-			if nl%40000 == 11 {
-				env.sample(c)
+			if nl%9000 == 11 {
+				env.sample(lawText(c))
 			}
 		}
 		if i%20000 == 19999 {
 			obiseq.VerifResetPools()
 			runtime.GC()
 		}
-	}
+	})
 }
